@@ -546,8 +546,9 @@ class C02(Property):
     )
     clauses_without_theorem = (
         "'the smallest-integers mode returns a positive solution of MINIMAL coefficient sum': that CBC's vector is minimal is "
-        "certified per instance only (verified checker minimalBySearch on the real output + independent enumeration in the oracle, "
-        "instances with coefficient sum <= 24); proved is only that the gate never alters a coprime canonical vector (gate_complete_on_ray, t = 1)",
+        "certified per instance only (verified checker minimalBySearch on the real output + independent enumeration in the oracle, sum <= 24, n <= 8). "
+        "Proved is everything chempy's own code contributes: the gate returns exactly v / gcd(v) for any positive integer ILP answer v (gate_divides_by_gcd, "
+        "sum never increases), a minimal-sum vector is coprime (min_sum_is_coprime) and is returned unchanged (smallest_mode_returns_minimal)",
         "'identically in any free parameter' (mode True with a parametric answer): no theorem - chempy applies no residual check in mode "
         "True (gate_symbolic_mode_skips_residual_witness); decided per instance by the oracle (sympy expansion of both totals) and by the "
         "Lean checker balanced_inst at sampled parameter values",
@@ -565,6 +566,8 @@ class C02(Property):
         "the parameter-elimination surgery between linsolve and the gate (incl. its `raise ValueError('Bug, please report')` and the `symb / cd` rescaling) "
         "is part of the solver parameter: executed by three-ray instances and by an injected non-linear solver answer, judged by the oracle only "
         "(balanced identically / refused with ValueError)",
+        "allow_duplicates: balance_call_end_to_end proves balanced / positive / coprime for whatever the duplicate search returns (on a selection of the species); "
+        "that it FINDS a selection when one exists is not proved (oracle: planted-sides instances must not be refused)",
         "`_solve_balancing_ilp_pulp` called directly (Rational and sympy-Float matrices, the `mult = 1` fallback): oracle only (positive multiple of the "
         "planted vector in column order); `Substance.composition_keys(skip_keys=...)`: oracle only (balance_stoichiometry never passes skip_keys); a table "
         "entry without composition (None) is sent to the model as the empty composition (only non-participating entries are generated)",
